@@ -141,8 +141,9 @@ func VerifC17_Request() {
 		req.xn = string([]byte{nd})
 	}
 	// an i64 field from the query: boundary values of the 32- and 64-bit ranges (BIG picks one, 0 = absent)
-	bigTexts := []string{"", "2147483648", "-2147483649", "9223372036854775807", "-9223372036854775808", "4294967296", "7"}
-	bigVals := []int64{0, 2147483648, -2147483649, 9223372036854775807, -9223372036854775808, 4294967296, 7}
+	// 7: a decimal with a leading zero (123, not octal); 8, 9: not decimal numbers, must be rejected
+	bigTexts := []string{"", "2147483648", "-2147483649", "9223372036854775807", "-9223372036854775808", "4294967296", "7", "0123", "0x10", "1_0"}
+	bigVals := []int64{0, 2147483648, -2147483649, 9223372036854775807, -9223372036854775808, 4294967296, 7, 123, 0, 0}
 	big := vrt.Param("BIG")
 	req.big = bigTexts[big]
 	var body []byte
@@ -231,6 +232,11 @@ func VerifC17_Request() {
 	cv := NewBinaryConv(opts)
 	ctx := verifCtx{Context: context.Background(), req: req}
 	out, err := cv.Do(ctx, st, body)
+	if big >= 8 {
+		vrt.Reach("converted")
+		vrt.Assert(err != nil, "C17.request.non-decimal-integer.error")
+		return
+	}
 	if wantErr {
 		vrt.Reach("error")
 		vrt.Assert(err != nil, "C17.request.missing-required.error")
